@@ -1138,3 +1138,27 @@ M('C06', 'default-action-keeps-underscores', PI_,
 M('C06', 'list-action-deduplicates', PI_,
   "        return list(value)", "        return list(dict.fromkeys(value))",
   ('R-SEMANTICS', 'BQLSemantics.list'))
+M('C19', 'print-to-stdout-not-output', SH,
+  "        with self.output as out:\n            execute_print(query, out)", "        with self.output:\n            execute_print(query, sys.stdout)",
+  ('R-PRINTOUT', 'BQLShell.on_Print'))
+T('C19', 'twin-print-compiled-local', SH,
+  "        query = self.context.compile(statement)\n        with self.output as out:\n            execute_print(query, out)", "        compiled = self.context.compile(statement)\n        with self.output as stream:\n            execute_print(compiled, file=stream)")
+M('C19', 'output-bare-file', SH,
+  "        return nullcontext(self.outfile)", "        return self.outfile",
+  ('R-OUTPUT', 'DispatchingShell.output'))
+M('C17', 'constant-typed-as-base-class', QC,
+  "        super().__init__(type(value) if dtype is None else dtype)", "        super().__init__(type(value).__mro__[-2] if dtype is None else dtype)",
+  ('R-CONSTTYPE', 'EvalConstant.__init__'))
+T('C17', 'twin-constant-dtype-local', QC,
+  "        super().__init__(type(value) if dtype is None else dtype)", "        if dtype is None:\n            dtype = type(value)\n        super().__init__(dtype)")
+M('C10', 'column-eq-name-only', CU,
+  "            return tuple(self) == tuple(other)", "            return self.name == other.name",
+  ('R-COLUMNEQ', 'Column.__eq__'))
+T('C10', 'twin-column-eq-name-and-type', CU,
+  "            return tuple(self) == tuple(other)", "            return (self._name, self._type) == (other._name, other._type)")
+M('C11', 'accounts-table-types-from-defaults', SB,
+  "        self.types = parser.options.get_account_types(options)", "        self.types = parser.options.get_account_types(parser.options.OPTIONS_DEFAULTS)",
+  ('R-TABLESOURCE', 'AccountsTable.__init__'))
+M('C05', 'in-subquery-zero-columns-accepted', CO,
+  "len(right.columns) != 1", "len(right.columns) > 1",
+  ('R-INOP', 'Compiler._inop'))
